@@ -38,7 +38,7 @@ class Externals:
             r = f(s.term, parts.term)
             it.notes.add("str.join is an uninterpreted function of separator and parts (length axiom for empty separator)")
             if z3.is_string_value(z3.simplify(s.term)) and z3.simplify(s.term).as_string() == "":
-                i = it.fresh("ji", z3.IntSort())
+                i = it.bound("ji", z3.IntSort())
                 one = z3.ForAll([i], z3.Implies(z3.And(i >= 0, i < z3.Length(parts.term)), z3.Length(parts.term[i]) == 1))
                 it.assume(z3.Implies(one, z3.And(z3.Length(r) == z3.Length(parts.term),
                                                  z3.ForAll([i], z3.Implies(z3.And(i >= 0, i < z3.Length(parts.term)), z3.SubString(r, i, 1) == parts.term[i])))))
@@ -74,7 +74,7 @@ class Externals:
         """list.index(x): first position holding an equal element, ValueError if absent."""
         e = it.coerce(x, s.ty.elem)
         i = it.fresh("idx", z3.IntSort())
-        j = it.fresh("idxj", z3.IntSort())
+        j = it.bound("idxj", z3.IntSort())
         ln = z3.Length(s.term)
         present = z3.Exists([j], z3.And(j >= 0, j < ln, it.py_eq(SV(s.ty.elem, s.term[j]), e, fr)))
         if not it.branch(present):
